@@ -26,6 +26,9 @@ from collections import Counter
 VERIF_DIR = os.path.dirname(os.path.dirname(os.path.abspath(__file__)))
 REPO = os.environ.get("VERIF_REPO", "/repo")
 NSHARDS = 16
+# development aid (mutant sweeps): scale every example budget; registered
+# commands never set it
+SCALE = float(os.environ.get("VERIF_SCALE", "1") or 1)
 
 
 def import_library():
@@ -172,6 +175,7 @@ class Ctx:
         from hypothesis import HealthCheck, Phase, given, settings
         ctx = self
         before = self.fail_events
+        max_examples = max(20, int(max_examples * SCALE))
 
         @hypothesis.seed(self.seed + seed_salt)
         @settings(max_examples=max_examples, database=None, deadline=None,
@@ -213,6 +217,7 @@ class Ctx:
         from hypothesis import HealthCheck, Phase, settings
         from hypothesis.stateful import run_state_machine_as_test
         before = self.fail_events
+        max_examples = max(10, int(max_examples * SCALE))
         st = settings(max_examples=max_examples, stateful_step_count=steps,
                       database=None, deadline=None, derandomize=False,
                       report_multiple_bugs=False,
